@@ -1,3 +1,4 @@
+import Iauthd.Proto.Reload17
 import Iauthd.Proto.Table
 /-
   Property C17 — "A reload reaches the decision modules" (model part).  The observable
@@ -44,5 +45,46 @@ theorem C17_timeout (s : State) (live new : Config) (first : Bool) :
     (applyConfig s live new first).1.timeout = new.timeout := by
   simp only [applyConfig]
   split <;> split <;> simp [servicesChanged, classChanged]
+
+/-! ### the tables after a reload and after a fresh start -/
+
+/-- **C17, service table**: when nobody waits for a service (no reference is outstanding), a rescan
+    of the service section - from whatever table the earlier files left - yields a table that holds
+    exactly the services the section names with a known protocol, each with that protocol (and every
+    slot in use is configured: `servicesChanged_allConf`) -/
+theorem C17_services (s : State) (sec : List CNode) (hok : TableOK s.svcs) (hr : NoRefs s.svcs)
+    (hd : SecDistinct sec) (hn : ∀ n ∈ sec, NoNul n.name) (name : Bytes) (t : SvcTy) :
+    (∃ y, some y ∈ (servicesChanged s sec).svcs ∧ y.name = name ∧ y.ty = t) ↔ Wants sec name t :=
+  servicesChanged_exact s sec hok hr hd hn name t
+
+/-- … hence the same services, with the same protocols, as a daemon freshly started on the section -/
+theorem C17_services_fresh (s s0 : State) (sec : List CNode) (hok : TableOK s.svcs) (hr : NoRefs s.svcs)
+    (h0 : s0.svcs = []) (hd : SecDistinct sec) (hn : ∀ n ∈ sec, NoNul n.name) (name : Bytes) (t : SvcTy) :
+    (∃ y, some y ∈ (servicesChanged s sec).svcs ∧ y.name = name ∧ y.ty = t) ↔
+    (∃ y, some y ∈ (servicesChanged s0 sec).svcs ∧ y.name = name ∧ y.ty = t) :=
+  servicesChanged_fresh s s0 sec hok hr h0 hd hn name t
+
+/-- **C17, rule table**: after a rebuild the rules are, up to their hit counters, the compilation of
+    the section - the same list, in the same order, as after a fresh start on that section -/
+theorem C17_rules_fresh (s s0 : State) (sec : List CNode) :
+    eraseR (classChanged s sec).rules = eraseR (classChanged s0 sec).rules := by
+  rw [(C17_rules s sec).1, (C17_rules s0 sec).1]
+  unfold eraseR
+  have e : ∀ (l : List Rule), l.map kernelR = l.map (fun r => { r with assigned := 0 }) := fun l => rfl
+  rw [e, e, C17_inherit_same_rules, C17_inherit_same_rules]
+
+/-- the hypotheses are met: the empty table of a fresh start, and a two-entry section -/
+example : TableOK [] ∧ NoRefs [] := ⟨⟨(fun x hx => by cases hx), (fun i j x y hx => by simp at hx)⟩, fun x hx => by cases hx⟩
+example : SecDistinct [{ name := b "a.srv", value := b "login" }, { name := b "b.srv", value := b "dronecheck" }] := by
+  unfold SecDistinct
+  simp only [List.pairwise_cons, List.mem_cons, List.mem_singleton, List.not_mem_nil, List.Pairwise.nil]
+  refine ⟨?_, ?_, trivial⟩
+  · intro c hc _ _
+    rcases hc with rfl | h
+    · decide
+    · cases h
+  · intro c hc; cases hc
+example : Wants [{ name := b "a.srv", value := b "login" }, { name := b "b.srv", value := b "dronecheck" }] (b "b.srv") .dronecheck :=
+  ⟨{ name := b "b.srv", value := b "dronecheck" }, by simp, rfl, rfl, by decide⟩
 
 end Iauthd.Properties
